@@ -22,6 +22,8 @@ func runC01(p *Program, r *Report) {
 	r.Rule("R01.4", "E4", 20, "all entry points are one operation: every gRPC method and every HTTP handler reaches envelope code only through the ITranslatorService method of the same operation; none creates envelopes or reads keys itself")
 	r.Rule("R01.5", "E3", 2, "old-container kind detection: matchOldContainer returns the AcraStruct id only on the success edge of the AcraStruct validator and the AcraBlock id only on the success edge of the AcraBlock extractor")
 	r.Rule("R01.6", "E1", 8, "byte-by-byte resynchronisation: in the three tag scanners (EnvelopeDetector.OnColumn, ProcessAcraStructs, ProcessAcraBlocks) the input cursor only ever moves to a found tag position, forward by exactly one byte (nothing recognised there), or forward by an envelope length parsed from the data at the cursor; any other step (a constant > 1, the tag length) can jump over the start of a real envelope that overlaps a tag look-alike")
+	r.Rule("R01.8", "E3", 25, "no key is used after it was wiped: a buffer passed to a function that overwrites it with zeros on every path (utils.Zeroize*, and every acra function that passes its parameter on to one, e.g. hmac.GenerateHMAC) is not read afterwards and is not passed again inside a loop that does not reload it (a cipher or MAC keyed with zeros protects nothing)")
+	ruleUseAfterWipe(p, r, "R01.8", func(s wipeSite) bool { return true })
 	r.Rule("R01.7", "E3", 3, "searchable-reveal state hygiene: every exit of hmac.Processor.OnColumn (re)defines the armed hash (field hashData): it is either cleared or armed for the value just seen; an exit that leaves the previous value's hash armed makes the next column of the session be verified against a stale hash (own values come back as ciphertext) or dereference a cleared matchedHash")
 	ruleR011(p, r)
 	ruleR012(p, r)
